@@ -17,7 +17,12 @@ on gama-local-deformation, and of
    the statistics dimension (lib/n12_nets.py stats_net): degrees of freedom
    {0,1,2,3+} x noise level x sigma-act x conf-pr, statistics block compared
    across XML / read_xml / text / HTML / read_html (check_stats, applied to
-   every gama-local execution of the check).  See RULE below for the oracles.
+   every gama-local execution of the check),
+   the wrap dimension (wrap_net): direction / angle / azimuth a few cc on both
+   sides of 0 = 400 gon, residuals of both signs (range clause check_ranges),
+   the status dimension (status_net): every point x,y in {absent, fix, adj,
+   constrained} x z likewise (coordinates summary, check_summary).
+See RULE below for the oracles.
 """
 import os, sys, json, subprocess, re, math, collections, time
 sys.path.insert(0, os.path.join(os.path.dirname(os.path.abspath(__file__)), "..", "lib"))
@@ -63,6 +68,18 @@ RULE = ("every network of the 40-member family x every string of the 11-item ide
         "confidence-scale x sqrt(cov) of the XML; printed by text and HTML only and compared between the two: partial ratios m0'/m0 (distances / directions / "
         "angles), maximal decrease of m0, maximal studentized / normalized residual with its observation index, exceeds / does not exceed, critical value, "
         "significance level; "
+        "RANGE clause on EVERY execution: observed and adjusted value of every direction, angle and azimuth lies in [0, 400) gon / [0, 360) degrees in the XML, "
+        "the text, the HTML and read_html (besides the agreement of every observed / adjusted value across these formats and read_xml, above); exercised by the "
+        "wrap dimension (lib/n12_nets.py wrap_net): plane network with one direction, one angle and one azimuth whose consistent value lies {-5,-1,+1,+5} cc from "
+        "0 = 400 gon and carries an error of {-8,+8} cc (8 settings per kind: observed values on both sides, residuals of both signs, adjusted value crossing "
+        "the boundary upwards / downwards / not at all - all 12 classes occur, see outcome classes) x frames {ne-l with the azimuth; en-r, sw-l without it} x "
+        "--angular {400, 360} x noise pattern; thorough: complete product 8 x 8 x 8 of the three kinds x both noise patterns; quick: complete product "
+        "direction x angle, azimuth setting (kd + 3 ka) mod 8, pattern ka mod 2; "
+        "COORDINATES SUMMARY of EVERY execution (adjusted / constrained / fixed x xyz / xy / z; totals where printed) compared between the XML summary, the "
+        "point lists of the same XML, the text output, the HTML table, read_html and the Octave variables; observations summary XML == read_html; exercised by the "
+        "status dimension (status_net): 3-D network of 3 fixed anchors + 1 adjusted helper point + variable points, each with x,y in {absent, fix, adj, "
+        "constrained} x z in {absent, fix, adj, constrained} minus (absent, absent) = 15 states, tied to the anchors and to the helper so that every "
+        "combination is adjustable; complete product 15^2 over 2 points [thorough: 15^3 over 3 points]; "
         "state = one distinct (network, id state, band, angular[, language, encoding, epoch, sigma-act, conf-pr, noise]) input or one ordered epoch pair, transition = one execution "
         "of gama-local / compare-xyz / gama-local-deformation / reader harness")
 
@@ -599,6 +616,76 @@ def check_stats(cx, D, X, tstat, hstat, G, V_text, V_html, run):
     if stx: cx.out["test of m0: %s" % stx] += 1
 
 
+WRAPPED = ("direction", "angle", "azimuth")
+
+
+def check_ranges(cx, X, V_text, V_html, G, degrees, run):
+    """range clause: every observed / adjusted direction, angle and azimuth lies in [0, 400) gon ([0, 360) degrees) in every
+    format; also records on which side of 0 = 400 the observed and the adjusted value of the run lie (vacuity)"""
+    def rng(fmt, tag, what, v, shown):
+        if v is None or not (0.0 <= v < 400.0):
+            cx.v("C12|angular-range|%s|%s|%s" % (fmt, tag, what), "%s %s value %r is outside [0, 400) gon / [0, 360) degrees" % (tag, what, shown), run)
+    for i, o in enumerate(X.obs):
+        if o["tag"] not in WRAPPED: continue
+        rng("xml", o["tag"], "obs", o["obs"], o["obs"]); rng("xml", o["tag"], "adj", o["adj"], o["adj"])
+        lo = lambda v: v < 0.01
+        hi = lambda v: v > 399.99
+        if (lo(o["obs"]) or hi(o["obs"])) and (lo(o["adj"]) or hi(o["adj"])):
+            cx.out["%s at 0/400: observed %s, adjusted %s" % (o["tag"], "above 0" if lo(o["obs"]) else "below 400", "above 0" if lo(o["adj"]) else "below 400")] += 1
+        if G is not None and G.get("obs.n") == len(X.obs):
+            rng("read_html", o["tag"], "obs", G.get("obs.%d.obs" % i), G.get("obs.%d.obs" % i)); rng("read_html", o["tag"], "adj", G.get("obs.%d.adj" % i), G.get("obs.%d.adj" % i))
+        if V_html is not None and len(V_html["obs"]) == len(X.obs):
+            r = V_html["obs"][i]
+            rng("html", o["tag"], "obs", r["obs"], r["obs"]); rng("html", o["tag"], "adj", r["adj"], r["adj"])
+        if V_text is not None:
+            tv = V_text["obs"].get(i + 1)
+            if tv is not None:
+                for what, sv in (("obs", tv[0]), ("adj", tv[1])):
+                    try: v = Q.dms2gon(sv) if degrees else float(sv)
+                    except ValueError: v = None
+                    if sv.lstrip().startswith("-"): v = None
+                    rng("text", o["tag"], what, v, sv)
+
+
+def check_summary(cx, D, X, tsum, hsum, G, O, run):
+    """coordinates summary (adjusted / constrained / fixed x xyz / xy / z, totals) across the adjustment XML, its own point lists,
+    the text output, the HTML output, read_html and the Octave file; observations summary XML == read_html"""
+    ref = {(g, c): D["cs.%s.%s" % (g, c)] for (g, c) in Q.SUMMARY_KEYS}
+    def bad(fmt, key, got):
+        cx.v("C12|coordinates-summary|%s|%s.%s" % (fmt, key[0], key[1]), "%s %s: %r, XML summary %r   [XML summary %s]" % (
+            key[0], key[1], got, ref.get(key), " ".join("%s.%s=%d" % (g, c, ref[(g, c)]) for (g, c) in Q.SUMMARY_KEYS)), run)
+    # the lists of the XML itself
+    adj = X.points["adjusted"]; fx = X.points["fixed"]
+    own = {("adjusted", "xyz"): sum(1 for p in adj if p["hxy"] and p["hz"]), ("adjusted", "xy"): sum(1 for p in adj if p["hxy"] and not p["hz"]),
+           ("adjusted", "z"): sum(1 for p in adj if p["hz"] and not p["hxy"]),
+           ("constrained", "xyz"): sum(1 for p in adj if p["cxy"] and p["cz"]), ("constrained", "xy"): sum(1 for p in adj if p["cxy"] and not p["cz"]),
+           ("constrained", "z"): sum(1 for p in adj if p["cz"] and not p["cxy"]),
+           ("fixed", "xyz"): sum(1 for p in fx if p["hxy"] and p["hz"]), ("fixed", "xy"): sum(1 for p in fx if p["hxy"] and not p["hz"]),
+           ("fixed", "z"): sum(1 for p in fx if p["hz"] and not p["hxy"])}
+    for k in Q.SUMMARY_KEYS:
+        if own[k] != ref[k]: bad("xml-lists-vs-xml", k, own[k])
+    for fmt, T in (("text-vs-xml", tsum), ("html-vs-xml", hsum)):
+        if T is None: continue
+        for k in Q.SUMMARY_KEYS:
+            if T.get(k) != ref[k]: bad(fmt, k, T.get(k))
+        for c in ("xyz", "xy", "z"):
+            w = ref[("adjusted", c)] + ref[("fixed", c)]
+            if T.get(("total", c)) != w:
+                cx.v("C12|coordinates-summary|%s|total.%s" % (fmt, c), "Total %s: %r, XML adjusted + fixed = %d" % (c, T.get(("total", c)), w), run)
+    if G is not None:
+        for k in Q.SUMMARY_KEYS:
+            if G.get("cs.%s.%s" % k) != ref[k]: bad("read_html-vs-xml", k, G.get("cs.%s.%s" % k))
+        for k in sorted(D):
+            if k.startswith("os.") and G.get(k) != D[k]:
+                cx.v("C12|observations-summary|read_html-vs-xml|%s" % k[3:], "%s: read_html %r, XML %r" % (k, G.get(k), D[k]), run)
+    if O is not None:
+        for k in Q.SUMMARY_KEYS:
+            g = O.get("%s_%s" % k)
+            if g is None or g != ref[k]: bad("octave-vs-xml", k, g)
+    mixed = any((p["cxy"] or p["cz"]) and any(q["id"] == p["id"] for q in fx) for p in adj)
+    cx.out["coordinates summary compared%s" % (": a point constrained in one part and fixed in the other" if mixed else "")] += 1
+
+
 def check_svg(cx, svg, net, item, pos, run):
     pc = posclass(pos)
     try:
@@ -702,6 +789,15 @@ def one_run(cx, net, gkf_text, band, ang, item, pos, tmp, exes, tag, keep=False,
                         Q.text_view(tt, degrees) if tt is not None else None, Q.html_view(H) if H is not None else None, run)
         except (ValueError, IndexError, KeyError) as e:
             cx.v("C12|stats|unparsable|%s|%s" % (posclass(pos), item), "%s: %r" % (type(e).__name__, e), run)
+        try:
+            try: Om = Q.octave(mb.decode("utf8", "surrogateescape")) if mb is not None else None
+            except Q.OctaveError: Om = None
+            Vt = Q.text_view(tt, degrees) if tt is not None else None
+            Vh = Q.html_view(H) if H is not None else None
+            check_ranges(cx, X, Vt, Vh, G, degrees, run)
+            check_summary(cx, D, X, Q.text_summary(tt) if tt is not None else None, Q.html_summary(H) if H is not None else None, G, Om, run)
+        except (ValueError, IndexError, KeyError) as e:
+            cx.v("C12|summary|unparsable|%s|%s" % (posclass(pos), item), "%s: %r" % (type(e).__name__, e), run)
         if full:
             sb = rd(outs["svg"])
             if sb is not None and any(p.xy is not None for p in net.points): check_svg(cx, sb, net, item, pos, run)
@@ -1059,9 +1155,36 @@ def task_stats(task):
     return (viol, dict(out), dict(cnt), sample)
 
 
+def gen_net(case):
+    """network of a generated case: kind 'wrap' (angular values at 0/400) or 'status' (status combinations)"""
+    if case["kind"] == "wrap": return N.wrap_net(case["kd"], case["ka"], case["kz"], case["frame"], case.get("pat", 0))
+    return N.status_net([tuple(x) for x in case["states"]])
+
+
+def task_gen(task):
+    """a list of generated networks (task['cases']: dicts with kind + parameters [+ angular]), each through all per-run oracles"""
+    viol = []; out = collections.Counter(); cnt = collections.Counter(); sample = None
+    tmp, exes = task["tmp"], task["exes"]
+    for k, case in enumerate(task["cases"]):
+        t = dict(case); t["kind"] = task["kind"]
+        cx = Ctx(t)
+        net = gen_net(t)
+        ang = case.get("angular", 400)
+        r = one_run(cx, net, task.get("gkf_override") or N.gkf(net), -1, ang, "plain", "none", tmp, exes, "G%s_%d" % (task["tag"], k), full=False)
+        cx.cnt["states"] += 1; cx.cnt["%s runs" % task["kind"]] += 1
+        viol += cx.viol; out.update(cx.out); cnt.update(cx.cnt)
+        if task["kind"] == "wrap":
+            sample = "wrap: direction/angle/azimuth settings %s/%s/%s (offset cc, error cc: %s) frame %s noise pattern %s angular %d" % (
+                case["kd"], case["ka"], case["kz"], [(N.WRAP_OFF[x % 4], N.WRAP_ERR[x // 4]) for x in (case["kd"], case["ka"], case["kz"]) if x is not None], case["frame"], case.get("pat", 0), ang)
+        else:
+            sample = "status: points xy+z = %s" % N.state_name([tuple(x) for x in case["states"]])
+    return (viol, dict(out), dict(cnt), sample)
+
+
 def run_task(task):
     try:
         if task["kind"] == "lang": return task_lang(task)
+        if task["kind"] in ("wrap", "status"): return task_gen(task)
         if task["kind"] == "stats": return task_stats(task)
         if task["kind"] == "epochprep": return task_epochprep(task)
         if task["kind"] == "epochs": return task_epochs(task)
@@ -1114,6 +1237,49 @@ def build_stats_tasks(ck, exes):
     base = {"tmp": ck.tmp, "exes": exes}
     return [dict(base, kind="stats", name=nm, noise=nz, angulars=([400] if ck.tier == "quick" else [400, 360]))
             for nm in N.stats_names() for nz, _ in N.NOISE]
+
+
+def build_gen_tasks(ck, exes):
+    """angular values at 0/400 and status combinations"""
+    import itertools
+    only = [x for x in os.environ.get("C12_NETS", "").split(",") if x]
+    base = {"tmp": ck.tmp, "exes": exes}
+    quick = ck.tier == "quick"
+    tasks = []
+    if not only or "wrap" in only:
+        # thorough: the complete product of the 8 settings of the three kinds; quick: the complete product direction x angle,
+        # the azimuth setting follows (kd + 3 ka) mod 8 (each of its settings meets each direction setting once)
+        for kd in range(8):
+            for ka in range(8):
+                pats = [ka % 2] if quick else [0, 1]          # noise pattern of the other observations
+                cases = [dict(kd=kd, ka=ka, kz=kz, frame="ne-l", pat=pt, angular=ang) for kz in ([(kd + 3 * ka) % 8] if quick else range(8))
+                         for pt in pats for ang in (400, 360)]
+                # the other frames without the azimuth (its reference model is the one of axes-xy="ne")
+                cases += [dict(kd=kd, ka=ka, kz=None, frame=fr, pat=pt, angular=ang) for fr in N.WRAP_FRAMES[1:] for pt in pats for ang in (400, 360)]
+                tasks.append(dict(base, kind="wrap", tag="w%d%d" % (kd, ka), cases=cases))
+    if not only or "status" in only:
+        # complete product of the 15 states per point over 2 points (quick) / 3 points (thorough)
+        npts = 2 if quick else 3
+        for i, st0 in enumerate(N.POINT_STATES):
+            rest = list(itertools.product(N.POINT_STATES, repeat=npts - 1))
+            for j in range(0, len(rest), 45):
+                cases = [dict(states=[list(st0)] + [list(x) for x in r]) for r in rest[j:j + 45]]
+                tasks.append(dict(base, kind="status", tag="s%d_%d" % (i, j), cases=cases))
+    return tasks
+
+
+def replay_gen(ck, exes, rp):
+    case = dict(rp["case"])
+    task = dict(kind=case["kind"], tag="replay", cases=[case], tmp=ck.tmp, exes=exes)
+    stored = (rp.get("files") or {}).get("input.gkf")
+    if stored: task["gkf_override"] = stored
+    viol, out, cnt, sample = run_task(task)
+    print("replay: gama-local input.gkf --xml --text --html --octave --angular %s  (%s)" % (case.get("angular", 400), sample))
+    hits = [v for v in viol if v[0] == rp["sig"]]
+    for sg, dt, r in viol:
+        print(("SAME " if sg == rp["sig"] else "other") + " " + sg + " :: " + str(dt)[:400])
+    if not hits: print("violation %s not reproduced" % rp["sig"])
+    sys.exit(1 if hits else 0)
 
 
 def replay_stats(ck, exes, rp):
@@ -1195,6 +1361,8 @@ def replay(ck, exes):
         replay_epochs(ck, exes, rp)
     if case.get("kind") == "stats":
         replay_stats(ck, exes, rp)
+    if case.get("kind") in ("wrap", "status"):
+        replay_gen(ck, exes, rp)
     F = fam()
     ni = case["net"] if isinstance(case.get("net"), int) else [n for n, _, _ in F].index(case["net"])
     task = dict(case, net=ni, tmp=ck.tmp, exes=exes)
@@ -1262,7 +1430,9 @@ def main():
     # (up to 609 tool runs each) go to the front of the queue
     stasks = build_stats_tasks(ck, exes)
     ntasks += len(stasks)
-    tasks = epairs + stasks + [tasks[i] for i in order]
+    gtasks = build_gen_tasks(ck, exes)
+    ntasks += len(gtasks)
+    tasks = epairs + gtasks + stasks + [tasks[i] for i in order]
     order = range(len(tasks))
     done = 0
     import concurrent.futures as cf
@@ -1272,7 +1442,7 @@ def main():
         viol, out, cnt, sample = res
         for k, v in out.items(): ck.outcome(k, v)
         for k, v in cnt.items(): ck.count(k, v)
-        if sample and (done % 997 == 1 or (sample[:7] in ("epochs:", "statist") and not files_cache.get(sample[:7]))):
+        if sample and (done % 997 == 1 or (sample[:7] in ("epochs:", "statist", "wrap: d", "status:") and not files_cache.get(sample[:7]))):
             ck.sample(sample)
             files_cache[sample[:7]] = True
         for sig, detail, rp in viol:
@@ -1284,6 +1454,9 @@ def main():
                 if ck.known.match("C12", sig) is None:
                     f_ = tuple(rp["fam"])
                     files = {"epoch1.gkf": EP.gkf(f_, rp["s1"]), "epoch2.gkf": EP.gkf(f_, rp["s2"])}
+            elif rp.get("kind") in ("wrap", "status"):
+                if ck.known.match("C12", sig) is None and ("kd" in rp or "states" in rp):
+                    files = {"input.gkf": N.gkf(gen_net(rp))}
             elif rp.get("kind") == "stats":
                 if ck.known.match("C12", sig) is None and "sigma_act" in rp:
                     files = {"input.gkf": N.gkf(N.stats_net(rp["name"], rp["noise"], rp["sigma_act"], rp["conf_pr"]))}
